@@ -326,6 +326,8 @@ class TermShapes:
         from . import sym as S
         if t in self.bounds:
             return self.bounds[t]
+        if t[:1] == ("bool",) and t[1] == "or":
+            t = ("alt", t[2])       # `a or b` is one of them
         if t[:1] == ("alt",):
             ds = {self.dim_of(a) for a in t[1]}
             if len(ds) == 1:
